@@ -15,6 +15,7 @@ import (
 	"github.com/b2broker/simplefix-go/session"
 	fixgen "github.com/b2broker/simplefix-go/tests/fix44"
 
+	"verifharness/fixref"
 	"verifharness/rig"
 	"verifharness/vk"
 	"verifharness/wire"
@@ -34,7 +35,7 @@ func (c cell) String() string {
 }
 func (c cell) key() string { return fmt.Sprintf("%s/%s/%s", c.role, c.cause, c.phase) }
 
-var causes = []string{"peer-eof", "read-error", "write-error", "peer-stops-reading", "client-close", "acceptor-close", "handler-stop"}
+var causes = []string{"peer-eof", "read-error", "write-error", "peer-stops-reading", "client-close", "acceptor-close", "handler-stop", "unroutable-inbound-frame"}
 var phases = []string{"before-logon", "mid-handshake", "established-idle", "inbound-burst", "inbound-stream", "inbound-requests", "outbound-burst", "during-logout"}
 
 func peerCaused(cause string) bool {
@@ -248,6 +249,14 @@ func runCell(c *vk.Ctx, ce cell, idx int) *outcome {
 		f.Acc.Close()
 	case "handler-stop":
 		l.H.Stop()
+	case "unroutable-inbound-frame":
+		// a complete frame (correct BodyLength and CheckSum) without a MsgType field: the handler's loop cannot
+		// route it and ends with an error, which ends the connection from the local side
+		fr := fixref.EncodeRaw(fixref.Std, "FIX.4.4", []byte("49="+rig.PeerID+"\x0156="+rig.LibID+"\x0134=9999\x0158=no MsgType\x01"))
+		l.Conn.Feed(fr)
+		if ce.offset%2 == 1 {
+			l.Conn.FeedEOF() // and the peer goes away right after it
+		}
 	}
 	// later send calls return instead of blocking
 	if l.S != nil {
@@ -358,7 +367,7 @@ func judge(c *vk.Ctx, o *outcome, p1, p2 []rig.GStack) {
 
 func main() {
 	c := vk.Init("C13")
-	c.Rule("fault matrix: role {acceptor, initiator} x cause {peer EOF, read error, write error, peer stops reading (writes stall to the write deadline), Initiator.Close, Acceptor.Close, handler.Stop} x phase {before logon, mid-handshake (cut inside the Logon bytes), established idle, inbound burst of 40 messages behind a slow application handler, steady inbound stream at a moderate rate, burst of 40 TestRequests (the handler loop itself is sending replies), outbound burst from 4 sender goroutines, during logout} x handler/conn buffer {0,1,10} x cut position {message boundary, mid-field, inside the CheckSum field} x 3 timing offsets; quick: every (role,cause,phase) once, thorough: the full matrix. Oracle after the settling bound 3 s + 1.1 (N+1) with N=1: net.Conn.Close called; Serve returned; OnDisconnect/OnStopped/EventDisconnect for peer-caused ends; a Session.Send issued 1 s after the end returns within 3 s; senders that were inside Send are released; goroutine profile (debug=1, pprof label per scenario) shows no library-started goroutine in two samples 1 s apart. distinct = matrix cell; non-trivial = hand-offs were pending / senders in flight at fault time (measured) or a non-traffic phase")
+	c.Rule("fault matrix: role {acceptor, initiator} x cause {peer EOF, read error, write error, peer stops reading (writes stall to the write deadline), Initiator.Close, Acceptor.Close, handler.Stop, a complete inbound frame without MsgType (the handler loop ends with an error), optionally followed by EOF} x phase {before logon, mid-handshake (cut inside the Logon bytes), established idle, inbound burst of 40 messages behind a slow application handler, steady inbound stream at a moderate rate, burst of 40 TestRequests (the handler loop itself is sending replies), outbound burst from 4 sender goroutines, during logout} x handler/conn buffer {0,1,10} x cut position {message boundary, mid-field, inside the CheckSum field} x 3 timing offsets; quick: every (role,cause,phase) once, thorough: the full matrix. Oracle after the settling bound 3 s + 1.1 (N+1) with N=1: net.Conn.Close called; Serve returned; OnDisconnect/OnStopped/EventDisconnect for peer-caused ends; a Session.Send issued 1 s after the end returns within 3 s; senders that were inside Send are released; goroutine profile (debug=1, pprof label per scenario) shows no library-started goroutine in two samples 1 s apart. distinct = matrix cell; non-trivial = hand-offs were pending / senders in flight at fault time (measured) or a non-traffic phase")
 	c.Assume("settling bound 5.2 s with N=1: the library's timer goroutines notice cancellation only at their next expiry, which is bounded and therefore allowed; the listener's accept loop is exempt until Acceptor.Close")
 	var cells []cell
 	for _, role := range []rig.Role{rig.Acceptor, rig.Initiator} {
@@ -367,6 +376,9 @@ func main() {
 				continue
 			}
 			for pi, phase := range phases {
+				if cause == "unroutable-inbound-frame" && phase == "mid-handshake" {
+					continue // the frame would be glued to the cut Logon in front of it and be routed as that Logon
+				}
 				if c.Thorough() {
 					for _, buf := range []int{0, 1, 10} {
 						for _, cut := range []string{"message-boundary", "mid-field", "inside-checksum"} {
